@@ -44,6 +44,13 @@ def ev(c, val):
         return {'<': a < b, '>': a > b, '<=': a <= b, '>=': a >= b, '==': a == b, '!=': a != b}[c.op]
     if c.k == 'CXXMemberCallExpr' or c.k == 'CallExpr':
         return val['call:' + norm(c.text())]
+    if c.k == 'DeclRefExpr' and c.dk == 'local':
+        # a named comparison: `const bool right = p0.x >= point.x;` reads as its initialiser
+        d = next((v for v in c.fn.body.walk() if v.k == 'VarDecl' and v.d == c.d and v.child('init') is not None and (v.t or '').startswith('const ')), None)
+        if d is not None:
+            return ev(d.child('init'), val)
+    if c.k == 'ParenExpr':
+        return ev(c.c[0], val)
     raise AnalysisBroken('condition is not comparison-only: %s' % c.text()[:80])
 
 
@@ -152,16 +159,19 @@ def check_contain(ctx, db):
     ctx.check(not bad, 'R-TABLE', 'Polygon::contain/x-cases', crossing.loc(), 'all 9 orderings of (p0.x, p1.x) against x are handled: strictly-left edges skipped, right edges counted, the rest decided by the determinant (on-edge points reported)',
               'edge cases mishandled (p0.x ? x, p1.x ? x) -> got, allowed: %s' % bad)
     # det blocks: det == 0 returns true; sign test
+    from ..facts import expr_text
+    hook, drop = clone.temps(f, [f.body])        # named comparisons (`const bool upwards = p1.y > p0.y`) read as their initialisers
+    tx = lambda e: norm(expr_text(e, None, hook))
     dets = [v for v in crossing.walk() if v.k == 'VarDecl' and v.n == 'det']
     ok = len(dets) >= 1
     for d in dets:
-        ok = ok and norm(d.child('init').text()) == '(p0 - point).cross((p1 - point))'
+        ok = ok and tx(d.child('init')) == '(p0 - point).cross((p1 - point))'
         blk = d.parent.parent
-        t = norm(clone.canon(blk, f))
+        t = norm(clone.canon(blk, f, hook=hook, drop=drop))
         ok = ok and re.search(r'if \(\(v\d+ == 0\)\)\n\s+return true', t) is not None and '((v' in t and '> 0) == (' in t
     ctx.check(ok, 'R-TABLE', 'Polygon::contain/det-blocks', crossing.loc(), 'each determinant block uses (p0 - point) x (p1 - point), reports a zero determinant as on-edge and counts only when its sign agrees with the edge direction')
     incs = [x for x in crossing.walk() if x.k == 'CompoundAssignOperator' and x.op == '+=' and norm(x.child('lhs').text()) == 'winding']
-    ok = len(incs) >= 2 and all(norm(x.child('rhs').text()) == '((p1.y > p0.y) ? 1 : (-1))' for x in incs)
+    ok = len(incs) >= 2 and all(tx(x.child('rhs')) == '((p1.y > p0.y) ? 1 : (-1))' for x in incs)
     ctx.check(ok, 'R-TABLE', 'Polygon::contain/winding-step', crossing.loc(), 'every counted crossing adds +1 for an upward and -1 for a downward edge')
     # boundary test: sound (true => on closed edge) and complete for p1 and strictly interior horizontal points
     c = boundary.child('cond')
